@@ -39,8 +39,61 @@ fn run_case(case: &Value) -> Value {
             let (o, s, c) = haloswap::formulas::compute_offer_amount(Uint128::from(x), Uint128::from(y), Uint128::from(k), cr);
             json!({"offer": o.to_string(), "spread": s.to_string(), "c": c.to_string()})
         }
+        "bn" => bn_case(case),
         _ => world::run_case(kind, case),
     }
+}
+
+fn u256(v: &Value) -> Uint256 {
+    let s = match v { Value::String(s) => s.clone(), Value::Number(n) => n.to_string(), _ => panic!("bad u256") };
+    Uint256::from_str(&s).expect("uint256")
+}
+fn d256(v: &Value) -> Decimal256 { Decimal256(u256(v).0) }
+fn ord(o: std::cmp::Ordering) -> i64 { match o { std::cmp::Ordering::Less => -1, std::cmp::Ordering::Equal => 0, std::cmp::Ordering::Greater => 1 } }
+
+/// one public bignumber operation on raw 256-bit operands (decimals are given as raw atomics)
+fn bn_case(case: &Value) -> Value {
+    let op = case["op"].as_str().unwrap_or("");
+    let a = &case["a"]; let b = &case["b"]; let c = &case["c"];
+    let r: String = match op {
+        "uint_add" => (u256(a) + u256(b)).to_string(),
+        "uint_add_assign" => { let mut x = u256(a); x += u256(b); x.to_string() }
+        "uint_sub" => (u256(a) - u256(b)).to_string(),
+        "uint_mul" => (u256(a) * u256(b)).to_string(),
+        "uint_mul_dec" => (u256(a) * d256(b)).to_string(),
+        "dec_mul_uint" => (d256(a) * u256(b)).to_string(),
+        "uint_div_dec" => (u256(a) / d256(b)).to_string(),
+        "multiply_ratio" => u256(a).multiply_ratio(u256(b).0, u256(c).0).to_string(),
+        "dec_add" => Uint256((d256(a) + d256(b)).0).to_string(),
+        "dec_add_assign" => { let mut x = d256(a); x += d256(b); Uint256(x.0).to_string() }
+        "dec_sub" => Uint256((d256(a) - d256(b)).0).to_string(),
+        "dec_mul" => Uint256((d256(a) * d256(b)).0).to_string(),
+        "dec_div" => Uint256((d256(a) / d256(b)).0).to_string(),
+        "from_ratio" => Uint256(Decimal256::from_ratio(u256(a).0, u256(b).0).0).to_string(),
+        "from_uint256" => Uint256(Decimal256::from_uint256(u256(a)).0).to_string(),
+        "percent" => Uint256(Decimal256::percent(u128_of(a) as u64).0).to_string(),
+        "permille" => Uint256(Decimal256::permille(u128_of(a) as u64).0).to_string(),
+        "dec_one" => Uint256(Decimal256::one().0).to_string(),
+        "dec_zero" => Uint256(Decimal256::zero().0).to_string(),
+        "uint_one" => Uint256::one().to_string(),
+        "uint_zero" => Uint256::zero().to_string(),
+        "uint_is_zero" => (u256(a).is_zero() as u8).to_string(),
+        "dec_is_zero" => (d256(a).is_zero() as u8).to_string(),
+        "cmp_uint" => ord(u256(a).cmp(&u256(b))).to_string(),
+        "pcmp_uint" => ord(u256(a).partial_cmp(&u256(b)).unwrap()).to_string(),
+        "eq_uint" => ((u256(a) == u256(b)) as u8).to_string(),
+        "lt_uint" => ((u256(a) < u256(b)) as u8).to_string(),
+        "cmp_dec" => ord(d256(a).cmp(&d256(b))).to_string(),
+        "lt_dec" => ((d256(a) < d256(b)) as u8).to_string(),
+        "eq_dec" => ((d256(a) == d256(b)) as u8).to_string(),
+        "to_u128" => { let x: u128 = u256(a).into(); x.to_string() }
+        "to_uint128" => { let x: Uint128 = u256(a).into(); x.to_string() }
+        "from_u128" => Uint256::from(u128_of(a)).to_string(),
+        "from_uint128" => Uint256::from(Uint128::from(u128_of(a))).to_string(),
+        "from_u64" => Uint256::from(u128_of(a) as u64).to_string(),
+        _ => return json!({"error": "unknown bn op"}),
+    };
+    json!({"r": r})
 }
 
 fn main() {
